@@ -452,7 +452,8 @@ class pdb2sql(pdb2sql_base):
             model_data = []
             for iModel in range(self._nModel):
                 kwargs['model'] = iModel
-                model_data.append(self.get(columns, **kwargs))
+                model_data.append(
+                    self.get(columns, tablename=tablename, **kwargs))
             return model_data
 
         # if we have 0 key we take the entire db
@@ -496,6 +497,7 @@ class pdb2sql(pdb2sql_base):
             for _, (k, v) in enumerate(kwargs.items()):
 
                 # deals with negative conditions
+                key = k
                 if k.startswith('no_'):
                     k = k[3:]
                     neg = ' NOT'
@@ -520,11 +522,33 @@ class pdb2sql(pdb2sql_base):
                         vchunck = [v[i:i + chunck_size]
                                    for i in range(0, nv, chunck_size)]
 
-                        data = []
-                        for v in vchunck:
+                        # rows selected by each chunck together with the
+                        # other conditions: a row is selected if its value is
+                        # in any of the chuncks (for a NOT condition, if it is
+                        # in none of them)
+                        rows = None
+                        for vc in vchunck:
                             new_kwargs = kwargs.copy()
-                            new_kwargs[k] = v
-                            data += self.get(columns, **new_kwargs)
+                            new_kwargs[key] = vc
+                            index = set(self.get(
+                                'rowID', tablename=tablename, **new_kwargs))
+                            if rows is None:
+                                rows = index
+                            elif neg:
+                                rows &= index
+                            else:
+                                rows |= index
+                        rows = sorted(rows)
+
+                        # get the data of these rows in the order of the table
+                        rows_kwargs = {}
+                        if 'model' in kwargs:
+                            rows_kwargs['model'] = kwargs['model']
+                        data = []
+                        for i in range(0, len(rows), chunck_size):
+                            data += self.get(
+                                columns, tablename=tablename,
+                                rowID=rows[i:i + chunck_size], **rows_kwargs)
                         return data
 
                     # otherwise we just go on
@@ -630,7 +654,7 @@ class pdb2sql(pdb2sql_base):
         if 'model' not in keys and self._nModel > 0:
             for iModel in range(self._nModel):
                 kwargs['model'] = iModel
-                self.update(columns, values, **kwargs)
+                self.update(columns, values, tablename=tablename, **kwargs)
             return
 
         # parse the attribute
@@ -650,7 +674,7 @@ class pdb2sql(pdb2sql_base):
                 'Number of cloumns does not match between argument columns and values')
 
         # get the row ID of the selection
-        rowID = self.get('rowID', **kwargs)
+        rowID = self.get('rowID', tablename=tablename, **kwargs)
         nselect = len(rowID)
 
         if nselect != nrow:
